@@ -158,6 +158,37 @@ pub fn run_item(tier: &str, idx: usize, only: Option<&Value>) -> MResult<ItemRes
     let pid = w.one(Op::new("getpid"))?.ret.unwrap_or(0);
     w.one(Op::new("raw_open").path("/src/file40").flags(O_RDONLY).keep("f40"))?;
     w.one(Op::new("handle_at_fd").handle("f40").num(40))?;
+    // A user-supplied descriptor that is the root of a MOUNT but not of a procfs: a procfs sub-directory (/proc/<other pid>, /proc/sys)
+    // bind-mounted somewhere. A handle made from it would answer "stat" with /proc/<pid>/stat: it must be refused, or at least never
+    // hand out an object other than the requested path's (first two items only).
+    if idx < 2 && only.map(|o| o["what"].as_str() == Some("subdir-root")).unwrap_or(true) {
+        for (i, src) in [format!("{}/{}", out("/proc"), other_pid), format!("{}/sys", out("/proc")), format!("{}/self/task", out("/proc"))].iter().enumerate() {
+            let tgt = out(&format!("/procsub{}", i));
+            std::fs::create_dir_all(&tgt).map_err(|e| Mach(format!("mkdir {}: {}", tgt, e)))?;
+            let (cs_, ct_) = (cs(src), cs(&tgt));
+            if unsafe { libc::mount(cs_.as_ptr(), ct_.as_ptr(), std::ptr::null(), libc::MS_BIND, std::ptr::null()) } != 0 { res.count("mount_refused", 1); continue; }
+            let o = w.one(Op::new("proc_from_path").path(&format!("/procsub{}", i)).keep("psub"))?;
+            res.evaluations += 1; res.nontrivial += 1;
+            res.outcome(format!("subdir-root:{}", if o.ok { "accepted".into() } else { errname(o.errno.unwrap_or(-1)) }));
+            if o.ok {
+                // accepted: then every answer must still be the requested procfs path's object
+                for name in ["stat", "status", "kernel", "1"] {
+                    let r = w.one(Op::new("proc_open").procfs("psub").base("root").path(name).flags(O_PATH))?;
+                    // (inode numbers differ between procfs instances: the genuine object is recognised by where it sits - directly below
+                    // the root of a procfs mount)
+                    let pp = r.fd.as_ref().and_then(|f| f.procpath.clone()).unwrap_or_default();
+                    let genuine = pp == format!("/{}", name) || pp == format!("/proc/{}", name);
+                    if r.ok && !genuine {
+                        res.violate("subdir-root-handle:wrong-object".to_string(), format!("[{} / {} resolver] try_from_fd accepted a bind mount of the procfs sub-directory {} as a procfs root, and open(ProcRoot, {:?}) then returned {:?} - not /proc/{}", hk.0, if emulated { "emulated" } else { "openat2" }, src.trim_start_matches(JAIL), name, r.fd.as_ref().and_then(|f| f.procpath.clone()), name),
+                            json!({"engine": "mountmc", "item": idx, "what": "subdir-root", "source": src}));
+                        break;
+                    }
+                }
+            }
+            unsafe { libc::umount2(ct_.as_ptr(), libc::MNT_DETACH) };
+        }
+        if only.is_some() { return Ok(res); }
+    }
     let capi = hk.0.ends_with("capi");
     let user_fd = hk.0 == "user-fd";
     // the handle used for the lookups
